@@ -119,6 +119,12 @@ def differential_scripts(cx, schs, scripts, variant, harness=WB, kind="random", 
                     break
                 a = [t for j, t in enumerate(a) if j != 1]
                 b = [t for j, t in enumerate(b) if j != 1]
+            if a != b and f19_seen and opn == "find":
+                # a stale hash-table record (F19) points to a node that meanwhile lives elsewhere: the lookup returns a node
+                # that is not a sibling at all — the model cannot follow a dangling pointer
+                cx.fail("sib", "lyd_find_sibling_val answers %s where a scan answers %s (stale children_ht record)" % (" ".join(a), " ".join(b)),
+                        {"schema": sn, "ops": ops[:k + 1], "attrib": "F19"})
+                continue
             if a != b:
                 cx.disagree("sib", ";".join(ops[:k + 1])[:600] + " @" + sn, a[:40], b[:40])
                 break
